@@ -335,7 +335,7 @@ impl<'a> Comparator<Option<&'a str>> for CmpGreaterThan {
     }
     fn ordering(left: Option<&'a str>, right: Option<&'a str>) -> Ordering {
         match (left, right) {
-            (Some(l), Some(r)) => l.cmp(r),
+            (Some(l), Some(r)) => r.cmp(l),
             (Some(_), None) => Ordering::Greater,
             (None, Some(_)) => Ordering::Less,
             (None, None) => Ordering::Equal,
